@@ -56,7 +56,7 @@ def run_c15(ctx: Ctx) -> None:
                                                                              properties=["Prop_C15"]))
     # T (i): tick clause on recorded traces
     items = [{"id": f"adv{k}", "kind": "adv", "seed": 52000 + 1000 * ctx.seed + k, "steps": 40, "with_route": False,
-              "world_kwargs": {"dt": [1, 7, 45, 60, 600][k % 5]}} for k in range(ctx.pick(12, 120))]
+              "world_kwargs": {"dt": [1, 7, 45, 60, 600][k % 5], "osm": k % 3 == 0}} for k in range(ctx.pick(12, 120))]      # both network types
     files = core.produce(ctx, items)
     tvt = core.validate(ctx, files, {"C15"})
     for v in tvt.viol:
@@ -71,6 +71,9 @@ def run_c15(ctx: Ctx) -> None:
         vs = {"one_call": [n], "split": splits(rng, n), "single_steps": [1] * n, "runner": "runner"}
         for lab, sp in vs.items():
             groups_by_variant.setdefault(lab, []).append(dict(s, label=lab, split=sp))
+        # a split at which the co-simulation user takes the instruction generators out of the payload and puts them back
+        # unchanged (the documented get / update_instruction_generator idiom): that must not change anything either
+        groups_by_variant.setdefault("split_put_back", []).append(dict(s, label="split_put_back", split=splits(rng, n), api_touch=True))
     # intervals that are not a whole number of steps: the runner alone (its numbers) and against crank(ceil)
     odd = []
     for k in range(ctx.pick(8, 40)):
@@ -99,7 +102,7 @@ def run_c15(ctx: Ctx) -> None:
     with log.open("a") as f:
         pass
     for s in sc + odd:
-        labels = ["one_call", "split", "single_steps", "runner"] if s in sc else ["one_call", "runner"]
+        labels = ["one_call", "split", "single_steps", "runner", "split_put_back"] if s in sc else ["one_call", "runner"]
         runs = [res[s["id"] + "|" + lab] for lab in labels]
         errs = [r for r in runs if "error" in r]
         if errs:
